@@ -7,6 +7,12 @@ PROPS = {
         rules=["HdrFields", "FlagAlgebra"],
         shards=8,
     ),
+    "C18": dict(
+        mc=["MC_Codes"],
+        topic="codes",
+        rules=["CodeTables", "MatchMatrix"],
+        shards=8,
+    ),
 }
 
 _TRUSTED = ("Trusted base: TLC 1.8.0; the Ref layer of the specification (RFC transcription, model-checked for "
@@ -23,5 +29,14 @@ TEXT = {
               "The space is finite and fully enumerated, so this is the right level."),
         note=_TRUSTED,
         technique="TLA+ spec (Header.tla) + TLC exhaustive model check + exhaustive trace validation of the real code's outputs",
+    ),
+    "C18": dict(
+        text=("Exhaustive: all 65536 codes through TYPE/CLASS/QTYPE/QCLASS conversion and back, every mnemonic the "
+              "crate names, the full (record type x question type) matrix over supported, NULL and unknown codes for "
+              "records obtained both by construction and by parsing, and all class x qclass pairs, each judged by TLC "
+              "against Codes.tla (IANA tables and RFC 1035 3.2.3 matching) in the trace specification; the tables' "
+              "own consistency is model-checked (MC_Codes)."),
+        note=_TRUSTED,
+        technique="TLA+ spec (Codes.tla) + TLC + exhaustive trace validation of the real code's outputs",
     ),
 }
